@@ -353,6 +353,11 @@ def check(ctx):
         ctx.floor("C16.P", "raw ownership hand-overs (%s)" % cfg, n, 1)
         check_no_stack(ctx, cfg)
         c07.check_try(ctx, cfg, c07.K_TRYB, True)
+        # "LengthError otherwise, with the source's elements dropped once": if the boxed collect fills its block through a guard, nothing may
+        # unwind or return early between disarming the guard (finish()) and handing the elements on - C04.F's finish window, run here as C15.W
+        # (S228: finish() before the surplus poll leaks the N elements of a too-long source)
+        from . import c04 as _c04
+        _c04.check_finish_window(ctx, cfg, "C15.W", only=(c07.K_TRYB, K + "try_from_vec", K + "try_from_boxed_slice"))
         # C15.N: the fallible conversions refuse a wrong length with Err, never with a panic (fully expanded, tree-shaped bodies)
         from ..rules import reachable_panics
         for k_ in (K + "try_from_vec", K + "try_from_boxed_slice") if cfg.endswith("N") else ():
